@@ -194,6 +194,7 @@ func (in *Interp) execRecv(th *Thread, f *Frame, x *ssa.UnOp) {
 		return
 	}
 	v, ok := in.chanTake(ch)
+	in.raceAcqRel(ch)
 	if x.CommaOk {
 		f.env[x] = TupleV{v, in.tb.Bool(ok)}
 	} else {
@@ -229,6 +230,7 @@ func (in *Interp) execSend(th *Thread, f *Frame, x *ssa.Send) {
 			return
 		}
 		th.sendWait = nil
+		in.raceAcquire(ch)
 		f.ip++
 		return
 	}
@@ -239,6 +241,7 @@ func (in *Interp) execSend(th *Thread, f *Frame, x *ssa.Send) {
 		in.goPanic(th, "send on closed channel")
 		return
 	}
+	in.raceRelease(ch)
 	ch.buf = append(ch.buf, in.get(f, x.X))
 	if ch.cap == 0 && in.liveThreads() > 1 {
 		th.sendWait = ch
@@ -259,6 +262,7 @@ func (in *Interp) chanClose(th *Thread, f *Frame, ch *ChanObj) (Value, bool) {
 		in.goPanic(th, "close of closed channel")
 		return nil, false
 	}
+	in.raceRelease(ch)
 	ch.closed = true
 	return nil, true
 }
@@ -320,9 +324,11 @@ func (in *Interp) execSelect(th *Thread, f *Frame, x *ssa.Select) {
 			in.goPanic(th, "send on closed channel (select)")
 			return
 		}
+		in.raceRelease(states[k].ch)
 		states[k].ch.buf = append(states[k].ch.buf, in.get(f, x.States[k].Send))
 	} else {
 		v, ok := in.chanTake(states[k].ch)
+		in.raceAcqRel(states[k].ch)
 		res[1] = in.tb.Bool(ok)
 		ri := 2
 		for i, s := range x.States {
